@@ -345,7 +345,7 @@ func init() {
 		return out, nil
 	})
 
-	// concurrent {schema, docs, insts, k, m}: k goroutines x m rounds over one Resolved / one Schema tree (C13)
+	// concurrent {schema, docs, insts, validateDefaults, burst, freshRounds}: k goroutines x m rounds over one Resolved / one Schema tree (C13)
 	// Optional arg infer {type, opts, warm} (as for the op `infer`): the goroutines additionally call ForType on `type` and on every
 	// `warm` type with ONE *ForOptions value shared by all of them (one TypeSchemas map whose entry schemas were decoded from JSON);
 	// every result must marshal like the result of the same call made alone with an options object of its own, and the shared
@@ -357,6 +357,15 @@ func init() {
 		}
 		var inf struct {
 			Infer *inferArgs `json:"infer"`
+			// Burst (default 0 = off): before the ordinary rounds every goroutine makes that many back-to-back passes of Validate
+			// over all the instances on the shared Resolved (each verdict compared with the sequential one), all goroutines
+			// released together: the first calls on a fresh Resolved then overlap for longer than one pass does.
+			Burst int `json:"burst"`
+			// FreshRounds (default 0 = off): before the ordinary phase, that many times: a FRESH Resolved is made from the shared
+			// root with the operation's options (validateDefaults …) and k goroutines, released together, at once make
+			// 3 passes of Validate over all the instances on it, each verdict compared with the sequential one —
+			// the first concurrent calls on a Resolved that Resolve has just returned, many times per operation.
+			FreshRounds int `json:"freshRounds"`
 		}
 		if err := json.Unmarshal(args, &inf); err != nil {
 			return nil, err
@@ -421,10 +430,6 @@ func init() {
 				r.PropertyOrder = append(make([]string, 0, 8), names[len(names)-1])
 			}
 		}
-		rs, err := u.root.Resolve(u.opts)
-		if err != nil {
-			return map[string]any{"outcome": "resolve-error"}, nil
-		}
 		var insts []any
 		var texts [][]byte
 		for _, it := range a.Insts {
@@ -457,11 +462,48 @@ func init() {
 		}
 		seqFor, _ := jsonschema.For[T](nil)
 		seqForB, _ := json.Marshal(seqFor)
+		// the shared Resolved is made last (with the options of the operation: validateDefaults makes Resolve itself run the
+		// evaluator over every default), so that the goroutines start on it right after Resolve returns
+		rs, err := u.root.Resolve(u.opts)
+		if err != nil {
+			return map[string]any{"outcome": "resolve-error"}, nil
+		}
 		const k, m = 8, 6
 		var wg sync.WaitGroup
 		var mu sync.Mutex
 		mismatches := 0
 		note := func() { mu.Lock(); mismatches++; mu.Unlock() }
+		for fr := 0; fr < inf.FreshRounds; fr++ {
+			frs, err := u.root.Resolve(u.opts)
+			if err != nil {
+				note()
+				break
+			}
+			const passes = 3
+			var fwg sync.WaitGroup
+			fstart := make(chan struct{})
+			for g := 0; g < k; g++ {
+				fwg.Add(1)
+				go func() {
+					defer fwg.Done()
+					defer func() {
+						if r := recover(); r != nil {
+							note()
+						}
+					}()
+					<-fstart
+					for b := 0; b < passes; b++ {
+						for i, v := range insts {
+							if safeValidate(frs, v) != seq[i] {
+								note()
+							}
+						}
+					}
+				}()
+			}
+			close(fstart)
+			fwg.Wait()
+		}
 		start := make(chan struct{})
 		for g := 0; g < k; g++ {
 			wg.Add(1)
@@ -473,6 +515,13 @@ func init() {
 					}
 				}()
 				<-start
+				for b := 0; b < inf.Burst; b++ {
+					for i, v := range insts {
+						if safeValidate(rs, v) != seq[i] {
+							note()
+						}
+					}
+				}
 				for round := 0; round < m; round++ {
 					if g%2 == 1 && round == 0 {
 						// half of the goroutines begin with ApplyDefaults, the others with Validate
